@@ -213,6 +213,14 @@ Fixpoint has_propvar (p : json) : bool :=
   | _ => false
   end.
 
+(** D9 applies where the index does not see values: under keys ending in "!" and under "rule". *)
+Fixpoint has_unindexed_values (f : json) : bool :=
+  match f with
+  | JObj kvs => existsb (fun kv => has_suffix "!" (fst kv) || String.eqb (fst kv) "rule" || has_unindexed_values (snd kv)) kvs
+  | JArr l => existsb has_unindexed_values l
+  | _ => false
+  end.
+
 (** D43: a pattern with an optional variable ("??x") as a value: the matcher
     lets the key be absent, the term index requires it. *)
 Fixpoint has_optvar (p : json) : bool :=
@@ -363,13 +371,13 @@ Definition kf_of (sy : system) (o : json) : list string :=
     let ps := query_patterns (jsize (jget_d "query" o)) (jnorm (jget_d "query" o)) in
     ((if existsb (fun p => match extract_terms p with [] => true | _ => false end) ps then ["D8"] else []) ++
      (if existsb has_optvar ps then ["D43"] else []) ++
-     (if existsb has_propvar ps then ["D9"] else []))%list
+     (if existsb has_propvar ps && existsb has_unindexed_values (all_facts sy) then ["D9"] else []))%list
   else
   if String.eqb op "search" then
     let p := jnorm (jget_d "pattern" o) in
     ((match extract_terms p with [] => ["D8"] | _ => [] end) ++
      (if has_optvar p then ["D43"] else []) ++
-     (if has_propvar p then ["D9"] else []))%list
+     (if has_propvar p && existsb has_unindexed_values (all_facts sy) then ["D9"] else []))%list
   else if String.eqb op "event" || String.eqb op "process" then
     (* patterns inside the conditions of the stored rules (D8/D9 apply to them too) *)
     let cps := if String.eqb op "process" then
@@ -574,13 +582,10 @@ Definition step_acc (a : acc) (o : json) : acc :=
                | Some x => Some x
                | None => if t2 =? t then None else try t2
                end in
-      match r with
-      | None =>
-          let '(_, m) := run_op sy0 o t in
-          mkAcc (a_reg a) (a_sys a) (a_k a) (Some (a_k a, jfS "op" o, m)) (a_spec a) (a_kf a) (a_feats a) (a_amb a)
-      | Some (sy', m, amb) =>
-          (* judge reads against the index-free specification *)
-          let '(spec_bad, kfs) :=
+      (* the specification judges of one operation, given the model's state before (sy0) and after (sy')
+         it, the model's result m and whether the step is ambiguous *)
+      let judge (sy' : system) (m : json) (amb : bool) : bool * list string :=
+
             if match jget "ttl_mismatch" obs with Some _ => true | None => false end
             then (true, filter (fun k => String.eqb k "D7") (kf_of sy0 o))
                  (* C17: the three cache TTLs gave different answers to the same request (D7: whether the index
@@ -607,6 +612,21 @@ Definition step_acc (a : acc) (o : json) : acc :=
               if jfB "amb" (spec_res t) || same_res (spec_res t) obs then (false, [])
               else if same_res (spec_res t2) obs then (false, []) else (true, kf_of sy0 o)
             else (false, []) in
+      match r with
+      | None =>
+          (* model and implementation differ here: the observation is still judged against the
+             specification, from the model's state before the operation *)
+          let '(sy', m) := run_op sy0 o t in
+          let '(spec_bad, kfs) := judge sy' m false in
+          mkAcc (a_reg a) (a_sys a) (a_k a) (Some (a_k a, jfS "op" o, m))
+                (match a_spec a with
+                 | Some x => Some x
+                 | None => if spec_bad && match kfs with [] => true | _ => false end
+                           then Some (a_k a, jfS "op" o) else None
+                 end)
+                (if spec_bad then (kfs ++ a_kf a)%list else a_kf a) (a_feats a) (a_amb a)
+      | Some (sy', m, amb) =>
+          let '(spec_bad, kfs) := judge sy' m amb in
           (* C15: the registry kept by the cron service holds exactly the stored scheduled rules *)
           let name := jfS "loc" o in
           let reg0 := match alookup name (a_reg a) with Some r => r | None => [] end in
